@@ -67,10 +67,10 @@ package otr3
 //@ func (*counterHistory).findCounterFor
 //@   requires h != nil && chNonNil(h) && chUnique(h)
 //@   modifies h.counters, elems(h.counters)
-//@   ensures [C05.find.pair] result != nil && result.ourKeyID == ourKeyID && result.theirKeyID == theirKeyID
+//@   ensures [C05.find.pair,C04.find.pair] result != nil && result.ourKeyID == ourKeyID && result.theirKeyID == theirKeyID
 //@   ensures [C05.find.existing,C19.counters.nogrowth] !fresh(result) ==> h.counters === old(h.counters)
 //@   ensures [C05.find.new] fresh(result) ==> (result.ourCounter == 0 && result.theirCounter == 0 && len(h.counters) == len(old(h.counters)) + 1 && h.counters[len(h.counters)-1] == result)
-//@   ensures [C05.find.same] forall i in 0..len(old(h.counters)) :: old(pairAt(h, i, ourKeyID, theirKeyID)) ==> result == old(h.counters[i])
+//@   ensures [C05.find.same,C04.find.same] forall i in 0..len(old(h.counters)) :: old(pairAt(h, i, ourKeyID, theirKeyID)) ==> result == old(h.counters[i])
 //@   ensures [C05.find.fresh] (forall i in 0..len(old(h.counters)) :: !old(pairAt(h, i, ourKeyID, theirKeyID))) ==> fresh(result)
 //@   ensures [C05.find.keep] forall i in 0..len(old(h.counters)) :: h.counters[i] == old(h.counters[i])
 //@   ensures chNonNil(h)
@@ -400,7 +400,7 @@ package otr3
 //@   requires k != nil
 //@   mayglobal randomness
 //@   modifies k.ourPreviousDHKeys.*, k.ourCurrentDHKeys.*, k.ourKeyID, val(k.ourPreviousDHKeys.pub), elems(k.ourPreviousDHKeys.priv), k.macKeyHistory.items, elems(k.macKeyHistory.items), k.oldMACKeys, elems(k.oldMACKeys)
-//@   ensures [C04.rot.our.noop,C09.retire.our.only] recipientKeyID != old(k.ourKeyID) ==> (result == nil && k.ourKeyID == old(k.ourKeyID) && k.ourCurrentDHKeys.pub == old(k.ourCurrentDHKeys.pub) && k.ourCurrentDHKeys.priv === old(k.ourCurrentDHKeys.priv) && k.ourPreviousDHKeys.pub == old(k.ourPreviousDHKeys.pub) && k.ourPreviousDHKeys.priv === old(k.ourPreviousDHKeys.priv) && k.oldMACKeys === old(k.oldMACKeys) && k.macKeyHistory.items === old(k.macKeyHistory.items))
+//@   ensures [C04.rot.our.noop,C09.retire.our.only,C02.reveal.only.retired.our] recipientKeyID != old(k.ourKeyID) ==> (result == nil && k.ourKeyID == old(k.ourKeyID) && k.ourCurrentDHKeys.pub == old(k.ourCurrentDHKeys.pub) && k.ourCurrentDHKeys.priv === old(k.ourCurrentDHKeys.priv) && k.ourPreviousDHKeys.pub == old(k.ourPreviousDHKeys.pub) && k.ourPreviousDHKeys.priv === old(k.ourPreviousDHKeys.priv) && k.oldMACKeys === old(k.oldMACKeys) && k.macKeyHistory.items === old(k.macKeyHistory.items))
 //@   ensures [C04.rot.our] (recipientKeyID == old(k.ourKeyID) && result == nil) ==> (k.ourKeyID == old(k.ourKeyID) + 1 && k.ourPreviousDHKeys.priv === old(k.ourCurrentDHKeys.priv) && k.ourPreviousDHKeys.pub == old(k.ourCurrentDHKeys.pub) && fresh(k.ourCurrentDHKeys.priv))
 //@   ensures [C04.rot.our.fail] result != nil ==> (k.ourKeyID == old(k.ourKeyID) && k.ourCurrentDHKeys.priv === old(k.ourCurrentDHKeys.priv) && k.ourPreviousDHKeys.priv === old(k.ourPreviousDHKeys.priv))
 //@   ensures [C09.retire.conserve.rot.our] len(k.oldMACKeys) + len(k.macKeyHistory.items) == len(old(k.oldMACKeys)) + len(old(k.macKeyHistory.items))
@@ -408,8 +408,8 @@ package otr3
 //@ func (*keyManagementContext).rotateTheirKey
 //@   requires k != nil
 //@   modifies k.theirKeyID, k.theirCurrentDHPubKey, k.theirPreviousDHPubKey, k.macKeyHistory.items, elems(k.macKeyHistory.items), k.oldMACKeys, elems(k.oldMACKeys)
-//@   ensures [C04.rot.their] senderKeyID == old(k.theirKeyID) ==> (k.theirKeyID == old(k.theirKeyID) + 1 && k.theirPreviousDHPubKey == old(k.theirCurrentDHPubKey) && k.theirCurrentDHPubKey == pubDHKey)
-//@   ensures [C04.rot.their.noop,C09.retire.their.only] senderKeyID != old(k.theirKeyID) ==> (k.theirKeyID == old(k.theirKeyID) && k.theirPreviousDHPubKey == old(k.theirPreviousDHPubKey) && k.theirCurrentDHPubKey == old(k.theirCurrentDHPubKey) && k.oldMACKeys === old(k.oldMACKeys) && k.macKeyHistory.items === old(k.macKeyHistory.items))
+//@   ensures [C04.rot.their,C09.retire.their.rotates,C02.rot.their] senderKeyID == old(k.theirKeyID) ==> (k.theirKeyID == old(k.theirKeyID) + 1 && k.theirPreviousDHPubKey == old(k.theirCurrentDHPubKey) && k.theirCurrentDHPubKey == pubDHKey)
+//@   ensures [C04.rot.their.noop,C09.retire.their.only,C02.reveal.only.retired] senderKeyID != old(k.theirKeyID) ==> (k.theirKeyID == old(k.theirKeyID) && k.theirPreviousDHPubKey == old(k.theirPreviousDHPubKey) && k.theirCurrentDHPubKey == old(k.theirCurrentDHPubKey) && k.oldMACKeys === old(k.oldMACKeys) && k.macKeyHistory.items === old(k.macKeyHistory.items))
 //@   ensures [C09.retire.conserve.rot.their] len(k.oldMACKeys) + len(k.macKeyHistory.items) == len(old(k.oldMACKeys)) + len(old(k.macKeyHistory.items))
 
 // ---------------------------------------------------------------------------
@@ -655,7 +655,7 @@ package otr3
 //@   requires convOK(c)
 //@   modifies anything
 //@   modifies seclog(c), msglog(c)
-//@   preserves [C18.end.frame] c.theirKey, c.version, c.Policies, c.ourCurrentKey, c.theirInstanceTag
+//@   preserves [C18.end.frame,C15.end.frame] c.theirKey, c.version, c.Policies, c.ourCurrentKey, c.theirInstanceTag
 //@   ensures [C18.end.state] c.msgState == plainText && c.ake == nil
 //@   ensures [C18.end.event] (old(c.msgState) == encrypted ==> seclog(c) == evpush(old(seclog(c)), uint64(GoneInsecure))) && (old(c.msgState) != encrypted ==> seclog(c) == old(seclog(c)))
 //@   ensures [C18.end.msg] old(c.msgState) != encrypted ==> (len(toSend) == 0 && err == nil)
@@ -888,7 +888,8 @@ package otr3
 //@   preserves [C01.awrevealsig.revealsig.frame] c.version, c.ourCurrentKey, c.Policies, c.ake
 //@   ensures [C01.finish.gate.revealsig,C07.finish.revealsig] c.msgState != old(c.msgState) ==> (commitok(nil) && akemacok(nil) && sigok(nil) && c.msgState == encrypted && isNone(result0))
 //@   ensures [C01.finish.revealsig.ok] (result2 == nil) ==> (c.msgState == encrypted && isNone(result0) && len(result1) >= 3 && !c.sentRevealSig && commitok(nil) && akemacok(nil) && sigok(nil))
-//@   ensures [C06.ake.reject.awrevealsig.revealsig] (result2 != nil && c.msgState == old(c.msgState) && !isNone(result0)) ==> (isAwRevealSig(result0) && result1 === nil && c.theirKey == old(c.theirKey))
+//@   ensures [C01.highlight.reject,C06.highlight.reject] (result2 != nil && !isNone(result0)) ==> c.sentRevealSig == old(c.sentRevealSig)
+//@   ensures [C06.ake.reject.awrevealsig.revealsig] (result2 != nil && c.msgState == old(c.msgState) && !isNone(result0)) ==> (isAwRevealSig(result0) && result1 === nil)
 
 //@ func (authStateAwaitingSig).receiveSigMessage
 //@   requires akeOK(c) && c.ake.ourPublicValue != nil && c.ake.theirPublicValue != nil
@@ -1073,3 +1074,34 @@ package otr3
 //@ func (*Conversation).notifyDataMessageError
 //@   requires c != nil
 //@   modifies msglog(c), c.injections.messages, elems(c.injections.messages)
+
+//@ func (*Conversation).checkPlaintextPolicies
+//@   requires c != nil
+//@   modifies c.whitespaceState, msglog(c)
+//@   ensures [C02.unencrypted.flagged,C18.unencrypted.flagged] (c.msgState != plainText || hasPol(c, requireEncryption)) ==> msglog(c) == evpush(old(msglog(c)), uint64(MessageEventReceivedMessageUnencrypted))
+//@   ensures [C02.unencrypted.quiet] !(c.msgState != plainText || hasPol(c, requireEncryption)) ==> msglog(c) == old(msglog(c))
+
+//@ func nextAllWhite
+//@   pure
+//@   ensures [C16.wstag.group] hasAllWhite ==> (len(data) >= 8 && allwhite === data[0:8] && rest === data[8:] && (forall k in 0..8 :: data[k] == 32 || data[k] == 9))
+//@   ensures [C16.wstag.nogroup] !hasAllWhite ==> rest === data
+//@ loop nextAllWhite #0
+//@   invariant forall k in 0..i :: data[k] == 32 || data[k] == 9
+
+//@ func ExtractMPIs
+//@   pure
+//@   ensures [C17.mpis.parse] result2 ==> (nonglobal(result1) && (forall k in 0..len(result1) :: result1[k] != nil))
+//@ loop ExtractMPIs #0
+//@   invariant nonglobal(result) && nonglobal(current) && len(result) == int(mpiCount) && (forall k in 0..i :: result[k] != nil)
+//@ sweep toSmpMessage1, toSmpMessage1Q, toSmpMessage2, toSmpMessage3, toSmpMessage4, (tlv).smpMessage
+
+//@ func (*Conversation).sigMessage
+//@   requires akeOK(c) && c.ake.ourPublicValue != nil && c.ake.theirPublicValue != nil && len(c.ake.sigKey.c) == 16
+//@   modifies anything
+//@   preserves [C01.sigmsg.frame] c.msgState, c.theirKey, c.ake, c.version, c.sentRevealSig, c.keys.ourKeyID, c.keys.theirKeyID, c.ourCurrentKey, c.Policies, c.ake.theirPublicValue, c.ake.ourPublicValue, c.ake.secretExponent
+//@   ensures result1 == nil ==> nonglobal(result0)
+//@ func (*Conversation).revealSigMessage
+//@   requires akeOK(c) && c.ake.ourPublicValue != nil && c.ake.theirPublicValue != nil && c.ake.secretExponent !== nil
+//@   modifies anything
+//@   preserves [C01.revealsigmsg.frame] c.msgState, c.theirKey, c.ake, c.version, c.sentRevealSig, c.keys.ourKeyID, c.keys.theirKeyID, c.ourCurrentKey, c.Policies, c.ake.theirPublicValue, c.ake.ourPublicValue, c.ake.secretExponent
+//@   ensures result1 == nil ==> nonglobal(result0)
